@@ -30,6 +30,22 @@ CLAIMED = {
              "functional model cannot express aliasing). Modelled not verified: middleware/*.py.",
         technique="Coq proof (induction over header/mount/completion lists) + in-Coq differential correspondence",
     ),
+    "C14": dict(
+        text="Coq theorems about a model of the Lifespan helper and of the use worker_serve makes of it, for every application script: "
+             "serving starts only once the startup event is set, which only lifespan.startup.complete or the end of the application "
+             "(return, or an exception = no lifespan support) can do; a failure reported by the application aborts whatever else it "
+             "did; the application is handed lifespan.startup first and lifespan.shutdown second, each at most once.  Tied to the "
+             "code by running the real Lifespan helpers of both workers, driven as worker_serve drives them under virtual time, "
+             "against the model; the ordering against socket acceptance and connection draining and the per-connection copy of the "
+             "lifespan state are checked on the real worker_serve of both workers over loopback sockets.",
+        design="7/C14",
+        note="Trusted: Coq kernel + vm_compute, harness (c14.py, rworker.py virtual loops). The model abstracts both helpers; it is "
+             "validated on scripts without messages of the wrong phase.  Socket-level ordering ('before any listening socket accepts') "
+             "and state isolation are observed on real sockets with real time (sampling), not proved: partial there.  F43 fixed "
+             "(80aa3e2); F44 open (trio loses a lifespan failure reported after startup).  Modelled not verified: asyncio/lifespan.py, "
+             "trio/lifespan.py, the lifespan part of both run.py.",
+        technique="Coq proof (induction over application scripts) + in-Coq differential correspondence on both real Lifespan helpers + socket-level oracle on both real workers",
+    ),
     "C16": dict(
         text="Coq theorems: the two EventWrapper implementations (asyncio clears its event in place, trio replaces the event object) wake "
              "the same tasks at the same operations for every operation sequence that respects the discipline by which hypercorn uses "
